@@ -8,13 +8,13 @@
 (***************************************************************************)
 EXTENDS Interp
 
-NVdata == 7                                   \* sampled volumes of the generated data sets
+NVs == {5, 8, 12}                             \* number of sampled volumes of the generated data sets
 SystemsOrNone == {"none", "triclinic", "monoclinic", "orthorhombic", "tetragonal7", "tetragonal6", "trigonal7", "trigonal6", "hexagonal", "cubic"}
 TMins == {"0", "0.5", "1", "300"}             \* (strings: the values are used by the harness, not by TLC arithmetic)
 DTs == {"0.5", "5", "100", "500"}
 VARIABLES cfg
-Configs == [interp : Methods, order : 1..6, system : SystemsOrNone, tmin : TMins, dt : DTs, lattice : BOOLEAN]
-ValidCfg(c) == Adm(c.interp, c.order, NVdata)
+Configs == [interp : Methods, order : 1..11, nv : NVs, system : SystemsOrNone, tmin : TMins, dt : DTs, lattice : BOOLEAN]
+ValidCfg(c) == Adm(c.interp, c.order, c.nv)
 CInit == cfg \in {c \in Configs : ValidCfg(c)}
 CNext == UNCHANGED cfg
 SpecCS == CInit /\ [][CNext]_cfg
